@@ -213,5 +213,13 @@ class Falsy:
     def __bool__(self):
         return False
 
+    # ... and every such value is ==-equal to, and hashes like, every other one (value objects): nothing in the library
+    # may find, deduplicate or match them by equality where identity is meant
+    def __eq__(self, other):
+        return isinstance(other, Falsy)
+
+    def __hash__(self):
+        return 17
+
     def __repr__(self):
         return f"Falsy({self.tag!r})"
